@@ -322,7 +322,7 @@ theorem contrib_writes27 {gy gz : ℕ} (X Y Z : RAxis) (W : ℚ) {i j k : ℕ}
     contrib (writes gy gz X Y Z W (order9 ++ order18)) (flat gy gz i j k) =
       X.weightAt i * Y.weightAt j * Z.weightAt k * W := by
   simp only [contrib, writes, order9, order18, pairs9, List.map_cons, List.map_nil, List.flatMap_cons,
-    List.flatMap_nil, List.cons_append, List.nil_append, List.map_append, List.sum_cons, List.sum_nil,
+    List.flatMap_nil, List.cons_append, List.nil_append, List.sum_cons, List.sum_nil,
     term_eq W hY hZ hj hk, weightAt_eq]
   ring
 
@@ -341,7 +341,7 @@ theorem writes_sum27 (gy gz : ℕ) (X Y Z : RAxis) (W : ℚ) :
     ((writes gy gz X Y Z W (order9 ++ order18)).map (·.2)).sum =
       (X.wm + X.w0 + X.wp) * (Y.wm + Y.w0 + Y.wp) * (Z.wm + Z.w0 + Z.wp) * W := by
   simp only [writes, order9, order18, pairs9, List.map_cons, List.map_nil, List.flatMap_cons,
-    List.flatMap_nil, List.cons_append, List.nil_append, List.map_append, List.sum_cons, List.sum_nil,
+    List.flatMap_nil, List.cons_append, List.nil_append, List.sum_cons, List.sum_nil,
     RAxis.w]
   ring
 
@@ -367,5 +367,239 @@ theorem writes_nonneg {gy gz : ℕ} {X Y Z : RAxis} {W : ℚ} (slots : List (Slo
   simp only [writes, List.mem_map] at hw
   obtain ⟨s, _, rfl⟩ := hw
   exact mul_nonneg (mul_nonneg (mul_nonneg (hX _) (hY _)) (hZ _)) hW
+
+/-! ### one particle -/
+
+/-- the three axes of a particle as the code evaluates them -/
+def axX (c : Cfg) (pt : Particle) : Axis := axisOf c.kind (gridCoord c pt.x c.gx)
+def axY (c : Cfg) (pt : Particle) : Axis := axisOf c.kind (gridCoord c pt.y c.gy)
+def axZ (c : Cfg) (pt : Particle) : Axis := axisOf c.kind (gridCoord c pt.z c.gz)
+
+theorem particleWrites_3d {c : Cfg} {pt : Particle} {X Y Z : RAxis} (hb : c.box ≠ 0) (hz : c.gz ≠ 1)
+    (hX : resolve c.gx (axX c pt) = .ok X) (hY : resolve c.gy (axY c pt) = .ok Y)
+    (hZ : resolve c.gz (axZ c pt) = .ok Z) :
+    particleWrites c pt = .ok (writes c.gy c.gz X Y Z pt.w (order9 ++ order18)) := by
+  unfold axX at hX; unfold axY at hY; unfold axZ at hZ
+  unfold particleWrites Cfg.threeD
+  simp [hb, hz, hX, hY, hZ, bind, Except.bind, pure, Except.pure]
+
+theorem particleWrites_2d {c : Cfg} {pt : Particle} {X Y : RAxis} (hb : c.box ≠ 0) (hz : c.gz = 1)
+    (hX : resolve c.gx (axX c pt) = .ok X) (hY : resolve c.gy (axY c pt) = .ok Y) :
+    particleWrites c pt = .ok (writes c.gy c.gz X Y flatZ pt.w order9) := by
+  unfold axX at hX; unfold axY at hY
+  unfold particleWrites Cfg.threeD
+  simp [hb, hz, hX, hY, bind, Except.bind, pure, Except.pure]
+
+theorem particleWrites_elim {c : Cfg} {pt : Particle} {ws : List (ℕ × ℚ)} (h : particleWrites c pt = .ok ws) :
+    c.box ≠ 0 ∧ ∃ X Y, resolve c.gx (axX c pt) = .ok X ∧ resolve c.gy (axY c pt) = .ok Y ∧
+      ((c.gz = 1 ∧ ws = writes c.gy c.gz X Y flatZ pt.w order9) ∨
+       (c.gz ≠ 1 ∧ ∃ Z, resolve c.gz (axZ c pt) = .ok Z ∧
+          ws = writes c.gy c.gz X Y Z pt.w (order9 ++ order18))) := by
+  by_cases hb : c.box = 0
+  · unfold particleWrites at h; simp [hb] at h
+  refine ⟨hb, ?_⟩
+  cases hX : resolve c.gx (axX c pt) with
+  | error e =>
+    unfold axX at hX; unfold particleWrites at h
+    simp [hb, hX, bind, Except.bind] at h
+  | ok X =>
+    cases hY : resolve c.gy (axY c pt) with
+    | error e =>
+      unfold axX at hX; unfold axY at hY; unfold particleWrites at h
+      simp [hb, hX, hY, bind, Except.bind] at h
+    | ok Y =>
+      refine ⟨X, Y, rfl, rfl, ?_⟩
+      by_cases hz : c.gz = 1
+      · left
+        rw [particleWrites_2d hb hz hX hY] at h
+        cases h; exact ⟨hz, rfl⟩
+      · right
+        cases hZ : resolve c.gz (axZ c pt) with
+        | error e =>
+          unfold axX at hX; unfold axY at hY; unfold axZ at hZ; unfold particleWrites Cfg.threeD at h
+          simp [hb, hz, hX, hY, hZ, bind, Except.bind] at h
+        | ok Z =>
+          rw [particleWrites_3d hb hz hX hY hZ] at h
+          cases h; exact ⟨hz, Z, rfl, rfl⟩
+
+/-- the only faults of one loop iteration: `ZeroDivisionError` for a zero box, otherwise an index error -/
+def cfgErr (c : Cfg) : Fault := if c.box = 0 then .rejected else .oob
+
+theorem particleWrites_error {c : Cfg} {pt : Particle} {e : Fault} (h : particleWrites c pt = .error e) :
+    e = cfgErr c := by
+  unfold cfgErr
+  by_cases hb : c.box = 0
+  · unfold particleWrites at h; simp [hb] at h; simp [hb, h]
+  simp only [hb, if_false]
+  cases hX : resolve c.gx (axX c pt) with
+  | error e' =>
+    have := resolve_error hX
+    unfold axX at hX; unfold particleWrites at h
+    simp [hb, hX, bind, Except.bind] at h
+    rw [← h, this]
+  | ok X =>
+    cases hY : resolve c.gy (axY c pt) with
+    | error e' =>
+      have := resolve_error hY
+      unfold axX at hX; unfold axY at hY; unfold particleWrites at h
+      simp [hb, hX, hY, bind, Except.bind] at h
+      rw [← h, this]
+    | ok Y =>
+      by_cases hz : c.gz = 1
+      · rw [particleWrites_2d hb hz hX hY] at h; cases h
+      · cases hZ : resolve c.gz (axZ c pt) with
+        | error e' =>
+          have := resolve_error hZ
+          unfold axX at hX; unfold axY at hY; unfold axZ at hZ; unfold particleWrites Cfg.threeD at h
+          simp [hb, hz, hX, hY, hZ, bind, Except.bind] at h
+          rw [← h, this]
+        | ok Z => rw [particleWrites_3d hb hz hX hY hZ] at h; cases h
+
+theorem flatZ_cell_lt (s : Slot) : flatZ.cell s < 1 := by cases s <;> simp [flatZ, RAxis.cell]
+
+theorem RAxis.w_nonneg_of {a : Axis} {g : ℕ} {R : RAxis} (h : resolve g a = .ok R)
+    (ha : 0 ≤ a.wm ∧ 0 ≤ a.w0 ∧ 0 ≤ a.wp) (s : Slot) : 0 ≤ R.w s := by
+  obtain ⟨_, _, _, h4, h5, h6⟩ := resolve_ok h
+  cases s <;> simp only [RAxis.w, h4, h5, h6] <;> tauto
+
+/-- what one loop iteration does when it does not fault: every subscript inside the grid, the amounts add up
+to the particle's weight, and they are non-negative for a non-negative weight -/
+theorem particleWrites_props {c : Cfg} {pt : Particle} {ws : List (ℕ × ℚ)} (h : particleWrites c pt = .ok ws) :
+    (∀ w ∈ ws, w.1 < c.gx * c.gy * c.gz) ∧ (ws.map (·.2)).sum = pt.w ∧
+      (0 ≤ pt.w → ∀ w ∈ ws, 0 ≤ w.2) := by
+  obtain ⟨hb, X, Y, hX, hY, h2 | h3⟩ := particleWrites_elim h
+  · obtain ⟨hz, rfl⟩ := h2
+    refine ⟨?_, ?_, ?_⟩
+    · apply writes_index_lt _ _ (resolve_cell_lt hX) (resolve_cell_lt hY)
+      rw [hz]; exact flatZ_cell_lt
+    · rw [writes_sum9, resolve_sum hX, resolve_sum hY]
+      unfold axX axY
+      rw [axisOf_sum, axisOf_sum]; ring
+    · intro hw
+      apply writes_nonneg _ (RAxis.w_nonneg_of hX (axisOf_nonneg _ _)) (RAxis.w_nonneg_of hY (axisOf_nonneg _ _)) _ hw
+      intro s; cases s <;> simp [flatZ, RAxis.w]
+  · obtain ⟨hz, Z, hZ, rfl⟩ := h3
+    refine ⟨?_, ?_, ?_⟩
+    · exact writes_index_lt _ _ (resolve_cell_lt hX) (resolve_cell_lt hY) (resolve_cell_lt hZ)
+    · rw [writes_sum27, resolve_sum hX, resolve_sum hY, resolve_sum hZ]
+      unfold axX axY axZ
+      rw [axisOf_sum, axisOf_sum, axisOf_sum]; ring
+    · intro hw
+      exact writes_nonneg _ (RAxis.w_nonneg_of hX (axisOf_nonneg _ _)) (RAxis.w_nonneg_of hY (axisOf_nonneg _ _))
+        (RAxis.w_nonneg_of hZ (axisOf_nonneg _ _)) hw
+
+/-! ### the loop over particles -/
+
+/-- all `+=` of the loop, in order -/
+def allWrites (c : Cfg) : List Particle → Except Fault (List (ℕ × ℚ))
+  | [] => .ok []
+  | pt :: ps =>
+    match particleWrites c pt, allWrites c ps with
+    | .ok ws, .ok r => .ok (ws ++ r)
+    | .error e, _ => .error e
+    | .ok _, .error e => .error e
+
+theorem foldlM_step (c : Cfg) (grid : List ℚ) (parts : List Particle) :
+    parts.foldlM (step c) grid = (allWrites c parts).map (accumulate grid) := by
+  induction parts generalizing grid with
+  | nil => rfl
+  | cons pt ps ih =>
+    rw [List.foldlM_cons]
+    have hs : step c grid pt = (particleWrites c pt).map (accumulate grid) := rfl
+    rw [hs]
+    cases hp : particleWrites c pt with
+    | error e => simp [allWrites, hp, Except.map, bind, Except.bind]
+    | ok ws =>
+      simp only [Except.map, bind, Except.bind]
+      rw [ih]
+      cases hr : allWrites c ps with
+      | error e => simp [allWrites, hp, hr, Except.map]
+      | ok r => simp [allWrites, hp, hr, Except.map, accumulate_append]
+
+theorem scatter_eq (c : Cfg) (grid : List ℚ) (parts : List Particle) :
+    scatter c grid parts =
+      if c.kind = .tsc ∧ c.box = 0 then .error .rejected else (allWrites c parts).map (accumulate grid) := by
+  unfold scatter
+  rw [foldlM_step]
+
+theorem allWrites_cons_ok {c : Cfg} {pt : Particle} {ps : List Particle} {W : List (ℕ × ℚ)}
+    (h : allWrites c (pt :: ps) = .ok W) :
+    ∃ ws r, particleWrites c pt = .ok ws ∧ allWrites c ps = .ok r ∧ W = ws ++ r := by
+  unfold allWrites at h
+  cases hp : particleWrites c pt with
+  | error e => rw [hp] at h; cases h
+  | ok ws =>
+    cases hr : allWrites c ps with
+    | error e => rw [hp, hr] at h; cases h
+    | ok r => rw [hp, hr] at h; cases h; exact ⟨ws, r, rfl, rfl, rfl⟩
+
+theorem allWrites_cons_of {c : Cfg} {pt : Particle} {ps : List Particle} {ws r : List (ℕ × ℚ)}
+    (h1 : particleWrites c pt = .ok ws) (h2 : allWrites c ps = .ok r) :
+    allWrites c (pt :: ps) = .ok (ws ++ r) := by
+  rw [allWrites, h1, h2]
+
+theorem allWrites_append {c : Cfg} {ps qs : List Particle} {wa wb : List (ℕ × ℚ)}
+    (ha : allWrites c ps = .ok wa) (hb : allWrites c qs = .ok wb) :
+    allWrites c (ps ++ qs) = .ok (wa ++ wb) := by
+  induction ps generalizing wa with
+  | nil => cases ha; simpa using hb
+  | cons pt ps ih =>
+    obtain ⟨ws, r, h1, h2, rfl⟩ := allWrites_cons_ok ha
+    rw [List.cons_append, allWrites_cons_of h1 (ih h2), List.append_assoc]
+
+theorem allWrites_error {c : Cfg} {ps : List Particle} {e : Fault} (h : allWrites c ps = .error e) :
+    e = cfgErr c := by
+  induction ps with
+  | nil => cases h
+  | cons pt ps ih =>
+    unfold allWrites at h
+    cases hp : particleWrites c pt with
+    | error e' => rw [hp] at h; cases h; exact particleWrites_error hp
+    | ok ws =>
+      cases hr : allWrites c ps with
+      | error e' => rw [hp, hr] at h; cases h; exact ih hr
+      | ok r => rw [hp, hr] at h; cases h
+
+theorem allWrites_props {c : Cfg} {ps : List Particle} {W : List (ℕ × ℚ)} (h : allWrites c ps = .ok W) :
+    (∀ w ∈ W, w.1 < c.gx * c.gy * c.gz) ∧ (W.map (·.2)).sum = (ps.map (·.w)).sum ∧
+      ((∀ pt ∈ ps, 0 ≤ pt.w) → ∀ w ∈ W, 0 ≤ w.2) := by
+  induction ps generalizing W with
+  | nil => cases h; simp
+  | cons pt ps ih =>
+    obtain ⟨ws, r, h1, h2, rfl⟩ := allWrites_cons_ok h
+    obtain ⟨a1, a2, a3⟩ := particleWrites_props h1
+    obtain ⟨b1, b2, b3⟩ := ih h2
+    refine ⟨?_, ?_, ?_⟩
+    · intro w hw
+      rcases List.mem_append.mp hw with hw | hw
+      · exact a1 w hw
+      · exact b1 w hw
+    · simp [a2, b2]
+    · intro hpos w hw
+      rcases List.mem_append.mp hw with hw | hw
+      · exact a3 (hpos pt (by simp)) w hw
+      · exact b3 (fun q hq => hpos q (by simp [hq])) w hw
+
+theorem allWrites_perm {c : Cfg} {ps qs : List Particle} (h : ps.Perm qs) :
+    ∀ {wa : List (ℕ × ℚ)}, allWrites c ps = .ok wa → ∃ wb, allWrites c qs = .ok wb ∧ wa.Perm wb := by
+  induction h with
+  | nil => intro wa ha; exact ⟨wa, ha, List.Perm.refl _⟩
+  | cons pt _ ih =>
+    intro wa ha
+    obtain ⟨ws, r, h1, h2, rfl⟩ := allWrites_cons_ok ha
+    obtain ⟨wb, hb, hp⟩ := ih h2
+    exact ⟨ws ++ wb, allWrites_cons_of h1 hb, List.Perm.append_left _ hp⟩
+  | swap p q l =>
+    intro wa ha
+    obtain ⟨w1, r1, h1, h2, rfl⟩ := allWrites_cons_ok ha
+    obtain ⟨w2, r2, h3, h4, rfl⟩ := allWrites_cons_ok h2
+    refine ⟨w2 ++ (w1 ++ r2), allWrites_cons_of h3 (allWrites_cons_of h1 h4), ?_⟩
+    rw [← List.append_assoc, ← List.append_assoc]
+    exact List.Perm.append_right _ List.perm_append_comm
+  | trans _ _ ih1 ih2 =>
+    intro wa ha
+    obtain ⟨wb, hb, hp⟩ := ih1 ha
+    obtain ⟨wc, hc, hq⟩ := ih2 hb
+    exact ⟨wc, hc, hp.trans hq⟩
 
 end AbacusVerif.Mass
